@@ -477,6 +477,13 @@ func (c *Ctx) Bin(op Op, a, b *Term) *Term {
 		if b.IsConst() && b.C == 1 {
 			return a
 		}
+		if r := c.divConst(op, a, b); r != nil {
+			return r
+		}
+	case OURem, OSRem:
+		if r := c.divConst(op, a, b); r != nil {
+			return r
+		}
 	case OBAnd:
 		if a.IsConst() {
 			a, b = b, a
@@ -1261,3 +1268,53 @@ func CollectVars(ts []*Term) []*Term {
 }
 
 var _ = bits.Len
+
+// divConst simplifies division / remainder by a constant when the dividend is a small
+// non-negative quantity: zext(y) or zext(y)*k with y at most 32 bits wide (no overflow,
+// so signed and unsigned operations agree and the usual arithmetic identities hold).
+func (c *Ctx) divConst(op Op, a, b *Term) *Term {
+	if !b.IsConst() || b.C == 0 || a.W != 64 || b.C >= 1<<31 {
+		return nil
+	}
+	isDiv := op == OUDiv || op == OSDiv
+	x, k := a, uint64(1)
+	if a.Op == OMul && a.Args[1].IsConst() {
+		x, k = a.Args[0], a.Args[1].C
+	}
+	if x.Op != OZExt || x.Args[0].W > 32 || k == 0 || k >= 1<<31 {
+		return nil
+	}
+	y := x.Args[0]
+	d := b.C
+	switch {
+	case k%d == 0: // (x*k)/d = x*(k/d), remainder 0
+		if isDiv {
+			return c.Bin(OMul, x, c.BV(k/d, 64))
+		}
+		return c.BV(0, 64)
+	case d%k == 0: // (x*k)/d = x/(d/k); (x*k)%d = (x%(d/k))*k
+		e := d / k
+		if e >= 1<<uint(y.W) {
+			if isDiv {
+				return c.BV(0, 64)
+			}
+			return a
+		}
+		if k == 1 && d == e && x == a {
+			// plain zext(y)/d: do it at y's width
+			var r *Term
+			if isDiv {
+				r = c.mk(&Term{Op: OUDiv, S: SBV, W: y.W, Args: []*Term{y, c.BV(e, int(y.W))}})
+			} else {
+				r = c.mk(&Term{Op: OURem, S: SBV, W: y.W, Args: []*Term{y, c.BV(e, int(y.W))}})
+			}
+			c.hasDiv = true
+			return c.ZExt(r, 64)
+		}
+		if isDiv {
+			return c.Bin(OUDiv, x, c.BV(e, 64))
+		}
+		return c.Bin(OMul, c.Bin(OURem, x, c.BV(e, 64)), c.BV(k, 64))
+	}
+	return nil
+}
